@@ -233,10 +233,23 @@ Fixpoint assoc_reqs (l : list (zs * list zs)) (k : zs) : list zs :=
 Definition registered_name (st : rstate) (m : nat) : zs :=
   match nth_error (store st) m with Some r => match m_owner r with ONative n _ => n | OFile _ => [] end | None => [] end.
 
+(* a core module that is already loaded under its own name, asked for through one more "node:" prefix (a core module
+   registered as "node:X" only, required as "node:node:X"): the same module under one more name; no second module object,
+   no second run of the loader (fix 4624a93) *)
+Definition reuse_core (st : rstate) (name : zs) : option nat :=
+  let stripped := skipn (length node_prefix) name in
+  if mem_zs name (n_registry nat_reg) || mem_zs name (n_global nat_reg) || mem_zs name (n_core nat_reg) then None
+  else if has_prefix node_prefix name && mem_zs stripped (n_core nat_reg)
+          && negb (mem_zs stripped (n_registry nat_reg) || mem_zs stripped (n_global nat_reg))
+       then cache_get (native_cache st) stripped else None.
+
 Definition load_native_run (st : rstate) (name : zs) : rstate * res :=
   match cache_get (native_cache st) name with
   | Some m => (st, ROk m)
   | None =>
+    match reuse_core st name with
+    | Some m0 => (with_native st (cache_set (native_cache st) name m0) (native_runs st), ROk m0)
+    | None =>
     let '(st1, r) := load_native st name in
     match r with
     | ROk m =>
@@ -246,6 +259,7 @@ Definition load_native_run (st : rstate) (name : zs) : rstate * res :=
       else let '(st2, oof) := run_lazies st1 loader_file (assoc_reqs (n_loader_reqs nat_reg) (registered_name st1 m)) in
            (st2, if oof then RFuel else ROk m)
     | other => (st1, other)
+    end
     end
   end.
 
@@ -315,10 +329,20 @@ Definition load_module (st : rstate) (p : path) : rstate * res :=
     end
   end.
 
+(* Registry.getManifest: a package.json is fetched under the Registry's lock and at most once per Registry (fix c134aec); the set of
+   fetched sources is the one getCompiledSource keeps (a package.json fetched as a manifest is not fetched again as a module,
+   and the other way round). A loader failure or a missing file is not remembered. *)
+Definition read_manifest (st : rstate) (pk : zs) : rstate :=
+  if mem_zs pk (compiled st) then st
+  else match fs_get fs pk with
+       | None | Some FErr => log_load st pk
+       | Some _ => add_compiled (log_load st pk) pk
+       end.
+
 Fixpoint try_cands (st : rstate) (cs : list cand) : rstate * res :=
   match cs with
   | [] => (st, RNone)
-  | CPkg pk :: rest => try_cands (log_load st pk) rest
+  | CPkg pk :: rest => try_cands (read_manifest st pk) rest
   | CMod p :: rest => match load_module st p with
                       | (st1, RNone) => try_cands st1 rest
                       | other => other
